@@ -234,6 +234,29 @@ def alias_analysis(src, gfsrc):
     return modes, smode, [st[:3] for st in stores], {"GFcalc": gfm}
 
 
+def key_lookup_analysis(src):
+    """the model looks cached values up by EXACT key (ckeqb sound).  In the source this rests on
+    vacancyThermoKinetics.__hash__ hashing the bytes of all four arrays (a dict compares stored hashes before __eq__,
+    and __eq__ is the tolerant numpy.allclose).  -> list of fields whose bytes enter the hash; fail closed otherwise"""
+    tree = ast.parse(src)
+    cls = [n for n in tree.body if isinstance(n, ast.ClassDef) and n.name == "vacancyThermoKinetics"]
+    if len(cls) != 1: raise Unrecognised("class vacancyThermoKinetics not found")
+    fns = {n.name: n for n in cls[0].body if isinstance(n, ast.FunctionDef)}
+    if "__hash__" not in fns: raise Unrecognised("vacancyThermoKinetics.__hash__ not found")
+    rets = [n for n in ast.walk(fns["__hash__"]) if isinstance(n, ast.Return)]
+    if len(rets) != 1 or not (isinstance(rets[0].value, ast.Call) and isinstance(rets[0].value.func, ast.Name) and rets[0].value.func.id == "hash"):
+        raise Unrecognised("__hash__ is not `return hash(...)`")
+    fields = set()
+    for n in ast.walk(rets[0].value):
+        if isinstance(n, ast.Call) and isinstance(n.func, ast.Attribute) and n.func.attr == "tobytes":
+            v = n.func.value
+            if isinstance(v, ast.Attribute) and v.attr == "data": v = v.value
+            if _is_self_attr(v, ("pre", "betaene", "preT", "betaeneT")): fields.add(v.attr)
+    missing = {"pre", "betaene", "preT", "betaeneT"} - fields
+    if missing: raise Unrecognised("__hash__ does not hash the bytes of %s: keys that compare equal under allclose can collide" % sorted(missing))
+    return sorted(fields)
+
+
 def dynamic_store_modes(d, argsA, argsB):
     """run-time: do the cache entries of two different keys share memory (a reused buffer)?"""
     d.clearcache()
@@ -336,18 +359,28 @@ class Pool:
         N, ngf = cfg
         return OnsagerCalc.VacancyMediated(self.crys, self.chem, self.sl, self.jn, N, ngf)
 
+    # vacancy data sets 3.. are near-equal but distinct copies of data set 0: (bFV, bFT0) * (1 + delta); numpy.allclose
+    # (rtol 1e-5, atol 1e-8) calls the first three equal to data set 0, the last two not
+    NEAR = {3: 1e-7, 4: 1e-6, 5: 5e-6, 6: 3e-5, 7: 1e-4}
+
     def input(self, cfg, kid):
         """the input arrays (always handed out as copies)"""
         N = cfg[0]
         if (N, kid) not in self.inputs:
             if N not in self.protos: self.protos[N] = self.fresh((N, 4))
             d = self.protos[N]
-            base = self.inputs.get(("vtk", kid[0]))
-            a = list(random_thermo(d, self.nr))
-            if base is None:
-                self.inputs[("vtk", kid[0])] = (a[0].copy(), a[3].copy())
+            if kid[0] in self.NEAR:
+                a = list(self.input(cfg, (0, kid[1])))          # everything else identical to data set 0
+                f = 1.0 + self.NEAR[kid[0]]
+                a[0], a[3] = a[0] * f, a[3] * f
+                if np.array_equal(a[3], self.input(cfg, (0, kid[1]))[3]): raise RuntimeError("near-equal input is not distinct")
             else:
-                a[0], a[3] = base[0].copy(), base[1].copy()
+                base = self.inputs.get(("vtk", kid[0]))
+                a = list(random_thermo(d, self.nr))
+                if base is None:
+                    self.inputs[("vtk", kid[0])] = (a[0].copy(), a[3].copy())
+                else:
+                    a[0], a[3] = base[0].copy(), base[1].copy()
             self.inputs[(N, kid)] = tuple(a)
         return tuple(x.copy() for x in self.inputs[(N, kid)])
 
@@ -384,7 +417,7 @@ def gen_history(rng, n, cfgs, with_regen):
     for _ in range(n):
         r = rng.random()
         if r < 0.5 or ncalls == 0:
-            ops.append(("lij", (rng.randrange(3), rng.randrange(2)), rng.random() < 0.25)); ncalls += 1
+            ops.append(("lij", (rng.choice([0, 1, 2, 0, 4, 5, 6]), rng.randrange(2)), rng.random() < 0.25)); ncalls += 1
         elif r < 0.72:
             ops.append(("mutate", rng.randrange(ncalls), rng.randrange(4), rng.choice(["fill", "add", "scale"])))
         elif r < 0.8:
@@ -394,7 +427,7 @@ def gen_history(rng, n, cfgs, with_regen):
             cur = rng.choice(cand); ops.append(("reconf", cur))
         else:
             ops.append(("saveload",))
-    if ops[-1][0] != "lij": ops.append(("lij", (rng.randrange(3), rng.randrange(2)), False))
+    if ops[-1][0] != "lij": ops.append(("lij", (rng.choice([0, 1, 2, 4, 6]), rng.randrange(2)), False))
     return ops
 
 
@@ -489,7 +522,8 @@ def run(ck):
     V = Once(ck)
     ck.rule = ("histories of 6-30 operations over pools of 6 inputs per configuration "
                "(Nthermo in {1,2} x NGFmax in {4,6}) on square, honeycomb and the polar 2-D cells rect-polar2d, oblique2d (non-zero bias "
-               "correction eta_v): Lij over 3 vTK keys x 2 other data (25% through reused input buffers), fixed A,B,A,C,B,A,C sequences, "
+               "correction eta_v): Lij over 3 vTK keys x 2 other data plus near-equal copies (relative 1e-7 .. 1e-4 in bFV/bFT0, in both orders) "
+               "(25% through reused input buffers), fixed A,B,A,C,B,A,C sequences, "
                "in-place edits (fill / += / *=) of any array returned by any earlier call, clearcache, re-generation, NGFmax "
                "change, HDF5 save+load; every Lij compared with a fresh calculator; distinct = distinct histories; non-trivial "
                "= contains an edit or a reconfiguration before a later Lij")
@@ -508,6 +542,13 @@ def run(ck):
     except (Unrecognised, SyntaxError, KeyError) as e:
         ck.obligations.append(("modes-derived-from-source", False, [str(e)]))
         ck.broken_proof = "alias analysis of VacancyMediated.Lij failed closed: %s" % e
+    try:
+        hf = key_lookup_analysis(open(os.path.join(srcdir, "OnsagerCalc.py")).read())
+        ck.extra["cache_key_hash_covers_bytes_of"] = hf
+        ck.obligations.append(("exact-key-lookup-from-source", True, []))
+    except (Unrecognised, SyntaxError) as e:
+        ck.obligations.append(("exact-key-lookup-from-source", False, [str(e)]))
+        ck.broken_proof = "cache lookup is not by exact key (premise `ckeqb` sound of C14_history): %s" % e
     # ---- 2. dynamic validation
     # square / honeycomb have eta_v = 0; the polar 2-D cells have a non-empty site vector basis (eta_v != 0), so that
     # a wrong cached bias correction is visible in L1vv
@@ -583,6 +624,7 @@ def run(ck):
     # ---- 4b. witness replay  [Lij a; Lij b; Lij a]  (different vacancy data; the third call is a cache hit)
     for nm, pool in pools.items():
         for N in (1, 2):
+            if ck.quick and N == 2 and len(pool.jn) < 2: continue
             d = pool.fresh((N, 4))
             alog = []
             seq = [(0, 0), (1, 0), (0, 0), (2, 1), (1, 1), (0, 1), (2, 0)]
@@ -606,6 +648,34 @@ def run(ck):
             if alog:
                 V("cache entries alias each other / the GF calculator's buffers / returned arrays: %s" % alog[0][1],
                   {"calculator": nm, "Nthermo": N, "events": alog[:6]}, key="c14-cache-aliasing")
+    # ---- 4d. near-equal but distinct vacancy data (a fine temperature scan, a finite-difference step) in both orders
+    blind = 0
+    for nm, pool in pools.items():
+        if ck.quick and nm in ("honeycomb", "sq2w"): continue
+        for v in sorted(Pool.NEAR):
+            if ck.quick and v == 7: continue
+            A, Ap = (0, 0), (v, 0)
+            refA, refAp = pool.reference((1, 4), A), pool.reference((1, 4), Ap)
+            phys = max(float(np.abs(x - y).max()) for x, y in zip(refA, refAp))     # what the two inputs differ by physically
+            if phys < 1e3 * TOL: blind += 1
+            for order in ((A, Ap), (Ap, A)):
+                d = pool.fresh((1, 4))
+                out = [d.Lij(*pool.input((1, 4), k)) for k in order]
+                ck.case(key=("near", nm, v, order == (A, Ap)), nontrivial=phys >= 1e3 * TOL, kind="near-equal:%g" % Pool.NEAR[v])
+                bad = None
+                for k, res in zip(order, out):
+                    ref = pool.reference((1, 4), k)
+                    diffs = [float(np.abs(np.asarray(x) - y).max()) for x, y in zip(res, ref)]
+                    if max(diffs) > TOL: bad = (k, diffs)
+                if len(d.GFvalues) != 2: bad = bad or (order[1], "only %d cache entries for 2 distinct inputs" % len(d.GFvalues))
+                if bad is not None:
+                    V("near-equal but distinct inputs collide in the cache: after evaluating %s the result for %s (relative difference %g in "
+                      "bFV/bFT0) is not that of a fresh calculator (%s; the two inputs differ physically by %.3g)"
+                      % (order[0], order[1], Pool.NEAR[v], bad[1], phys),
+                      {"calculator": nm, "crystal": repr(pool.crys), "cutoff": pool.cut, "delta": Pool.NEAR[v], "order": [list(order[0]), list(order[1])],
+                       "A": [x.tolist() for x in pool.input((1, 4), A)], "A_prime": [x.tolist() for x in pool.input((1, 4), Ap)], "problem": str(bad),
+                       "physical_difference": phys, "cache_entries": len(d.GFvalues)}, key="c14-near-equal-inputs-collide")
+    ck.extra["near_equal_pairs_physically_indistinguishable"] = blind
     # ---- 4c. the caller reuses its INPUT arrays, then save/load  (the vTK cache key must not keep references to the inputs)
     keyalias = None
     for nm in ("square", "rect-polar2d"):
